@@ -599,3 +599,90 @@ def precision_purity_rule(chk, cid, prog, cfgname):
     if n < 12:
         raise AnalysisBroken('%s: only %d floating declarations found in the d/z reader units (floor 12)' % (cid, n))
     return n
+
+
+HEADER_LAYOUT = {
+    # fixed-column header records after the title line, as the two file formats define them (Duff, Grimes, Lewis: "Users' guide for the
+    # Harwell-Boeing sparse matrix collection", 1992; "The Rutherford-Boeing sparse matrix collection", 1997)
+    'readhb': [[14] * 5, [3, 11, 14, 14, 14, 14], [16, 16, 20, 20]],   # TOTCRD PTRCRD INDCRD VALCRD RHSCRD / MXTYPE pad NROW NCOL NNZERO NELTVL / PTRFMT INDFMT VALFMT RHSFMT
+    'readrb': [[14] * 4, [3, 11, 14, 14, 14, 14], [16, 16, 20]],       # TOTCRD PTRCRD INDCRD VALCRD / MXTYPE pad NROW NCOL NNZERO NELTVL / PTRFMT INDFMT VALFMT
+}
+
+
+def header_layout_rule(chk, cid, prog, cfgname):
+    """The Harwell-Boeing and Rutherford-Boeing headers are fixed-column records.  The readers consume them with `fscanf(fp, "%Nc", buf)` field
+    by field and skip to the next record with ?DumpLine.  The sequence of widths consumed between two record ends must be the field list of the
+    format: one field more runs over the end of a record that is not padded to 80 columns (and swallows the start of the next one), one less
+    misplaces every later field.  Extracted from the statement order of the reader (constant-trip loops unrolled), compared with the format."""
+    import re
+    from ..run import AnalysisBroken
+    n = 0
+
+    def tokens(st, out):
+        if st.k in ('Block',):
+            for c in st.c:
+                tokens(c, out)
+            return
+        if st.k == 'For':
+            cond = strip(st.c[1])
+            trip = const_value(cond.c[1]) if cond.k == 'Binary' and cond.a['op'] == '<' else None
+            sub = []
+            tokens(st.c[3], sub)
+            if sub:
+                if trip is None:
+                    out.append(('?', st))
+                else:
+                    out.extend(sub * trip)
+            return
+        if st.k in ('If', 'While', 'Switch'):
+            return          # optional records (the right-hand-side format line) are not part of the fixed header
+        for x in st.walk():
+            if x.k != 'Call':
+                continue
+            cn = callee_name(x) or ''
+            if cn == 'fscanf':
+                fmt = strip(x.c[2])
+                text = (fmt.a.get('value') or '') if fmt.k == 'Str' else None
+                if text is None:
+                    out.append(('?', x))
+                    continue
+                for m in re.finditer(r'%\*?(\d+)c', text):
+                    out.append((int(m.group(1)), x))
+            elif cn.endswith('DumpLine'):
+                out.append(('NL', x))
+            elif cn == 'fgets':
+                out.append(('LINE', x))
+
+    for kind, layout in sorted(HEADER_LAYOUT.items()):
+        for p in 'sdcz':
+            f = prog.func(p + kind)
+            if f is None:
+                raise AnalysisBroken('%s%s not found' % (p, kind))
+            chk.saw(unit=f.unit, func=f.unit + ':' + f.name)
+            toks = []
+            tokens(f.body, toks)
+            lines, cur = [], []
+            for (t, node) in toks:
+                if t == 'NL':
+                    lines.append(cur)
+                    cur = []
+                elif t == 'LINE':
+                    if cur:
+                        lines.append(cur)
+                    cur = []
+                else:
+                    cur.append((t, node))
+            lines = [l for l in lines if l]
+            if len(lines) < len(layout):
+                raise AnalysisBroken('%s: %d fixed-column header records recognised, the format has %d' % (f.name, len(lines), len(layout)))
+            for k, want in enumerate(layout):
+                n += 1
+                got = [t for (t, node) in lines[k]]
+                inst = '%s:header-record-%d' % (f.name, k + 2)
+                if got == want:
+                    chk.ok(cid, inst, sample='widths %s' % got)
+                else:
+                    chk.violate(cid, inst, loc(f, lines[k][min(len(want), len(got) - 1)][1] if got else f.body), f.name,
+                                'header record %d is consumed as fields of width %s; the format defines %s: every later field of the record (or, past its end, '
+                                'the first columns of the next record) is read from the wrong place' % (k + 2, got, want), cfgname=cfgname)
+    return n
